@@ -141,7 +141,7 @@ def sym_driver():
 
 
 def sym_input(scn, inp, loop=2, fuel=400, mem_limit=refevm.MEM_LIMIT):
-    code = list(scn["accounts"][scn["this"]]["code"])
+    accts = [scn["this"]] + [a for a in scn["accounts"] if a != scn["this"]]
     data = []
     nargs = 0
     for seg in scn["calldata"]:
@@ -153,7 +153,11 @@ def sym_input(scn, inp, loop=2, fuel=400, mem_limit=refevm.MEM_LIMIT):
             data += [-(1 + 32 * k + j) for j in range(seg[2])]
     args = [inp["args"].get(f"arg{i}", 0) for i in range(nargs)]
     bals = inp.get("balances", {})
-    out = [mem_limit, fuel, loop, scn["this"], 1 if scn.get("static") else 0, len(code)] + code + [len(data)] + data
+    out = [mem_limit, fuel, loop, scn["this"], 1 if scn.get("static") else 0, len(accts)]
+    for a in accts:
+        code = list(scn["accounts"][a]["code"])
+        out += [a, len(code)] + code
+    out += [len(data)] + data
     out += [inp["caller"], inp["origin"], inp["value"], len(args)] + args + [len(bals)]
     for a, b in bals.items():
         out += [a, b]
@@ -169,10 +173,6 @@ def sym_decode(res):
         lf = {"kind": ["ok", "revert", "halt", "stuck", "fuel", "halt"][kind], "raw": kind, "sub": sub}
         if kind in (0, 1):
             lf["ret"] = bytes(next(it) for _ in range(next(it)))
-        if kind == 0:
-            for key in ("store", "tstore"):
-                n = next(it)
-                lf[key] = [(next(it), next(it)) for _ in range(n)]
         leaves.append(lf)
     return {"logged": bool(logged), "nleaves": nleaves, "sat": leaves}
 
@@ -185,7 +185,7 @@ def model_leg(scn, inputs, refs, holders):
     fuel or cut by the loop bound (the extracted oracle answers `unknown`) are skipped."""
     loop = int(scn.get("options", {}).get("loop", 2))
     m = sym_driver()
-    res = m.batch([("sym_run", sym_input(scn, i, loop=loop)) for i in inputs])
+    res = m.batch([("sym_run2", sym_input(scn, i, loop=loop)) for i in inputs])
     out = {"compared": 0, "skipped": 0, "model_vs_ref": [], "model_vs_halmos": []}
     for inp, ref, hold, r in zip(inputs, refs, holders, res):
         if r is None or ref["status"] in ("fuel", "unsupported", "model-error") or hold is None:
